@@ -44,6 +44,13 @@ def make_sandbox(base):
     os.mkdir(os.path.join(outer, "mid", "root-evil"))
     with open(os.path.join(outer, "mid", "root-evil", "secret.ics"), "wb") as f:
         f.write(decoy_ics)
+    # the whole surrounding tree is somebody's git checkout (decoys tracked): nothing may be found by walking UP from the root
+    import subprocess
+
+    e = dict(os.environ, GIT_AUTHOR_NAME="x", GIT_AUTHOR_EMAIL="x@x", GIT_COMMITTER_NAME="x", GIT_COMMITTER_EMAIL="x@x")
+    subprocess.run(["git", "init", "-q", outer], check=True, env=e, stdout=subprocess.DEVNULL, stderr=subprocess.DEVNULL)
+    subprocess.run(["git", "-C", outer, "add", "secret.ics", "mid/root-evil/secret.ics"], check=True, env=e, stdout=subprocess.DEVNULL, stderr=subprocess.DEVNULL)
+    subprocess.run(["git", "-C", outer, "commit", "-q", "-m", "decoys"], check=True, env=e, stdout=subprocess.DEVNULL, stderr=subprocess.DEVNULL)
     absd = os.path.join(base, "absdecoy")
     os.mkdir(absd)
     with open(os.path.join(absd, "secret.ics"), "wb") as f:
